@@ -25,4 +25,20 @@ def roots(f, scope):
     return out
 
 
+IMPLICIT_TRAITS = ("std::hash::Hash", "std::cmp::PartialEq", "std::cmp::Eq", "std::cmp::PartialOrd", "std::cmp::Ord", "std::clone::Clone",
+                   "std::fmt::Display", "std::fmt::Debug", "std::default::Default", "std::ops::Drop", "std::iter::Iterator", "std::ops::Deref")
+
+
+def implicit_roots(f):
+    """trait impls of the crate's own types that std calls generically (HashSet<Term>::insert -> Term::hash / Term::eq, to_string -> Display::fmt,
+    {:?} -> Debug::fmt, clone of a Vec<Term> -> Term::clone ...): the MIR call graph does not show these edges, so they are roots of every scope"""
+    out = []
+    for p, b in f.mir.items():
+        im = b.get("impl") or {}
+        tr = im.get("trait") or ""
+        if any(tr.startswith(t) for t in IMPLICIT_TRAITS) and "::tests" not in p and "::test" not in p:
+            out.append(p)
+    return out
+
+
 SCOPES = ["enum_parser", "lexical_parser", "fold", "enum_formatter", "typst"]
